@@ -2,7 +2,7 @@
 
 Functions under contract (PyMatterSim/static/vector.py, real ASTs re-read on every run):
   participation_ratio, local_vector_alignment, phase_quotient, divergence_curl, vibrability,
-  vector_decomposition_sq.
+  vector_decomposition_sq, vector_fft_corr.
 The postconditions are the documented definitions (docs/vectors.md, repeated in the property statement):
 
   PR            = (sum_i |e_i|^2)^2 / (N sum_i |e_i|^4),  in [1/N, 1] for e != 0,  PR(c e) = PR(e) (c != 0)
@@ -13,6 +13,11 @@ The postconditions are the documented definitions (docs/vectors.md, repeated in 
   vibrability_i = sum_l |e_{l,i}|^2 / omega_l^2
   split         : L = qhat (qhat . F),  T = F - L,  L || q,  L + T = F,  qhat . T = 0 and |F|^2 = |L|^2 + |T|^2
                   for |qhat| = 1 (exactly: |L|^2 + |T|^2 - |F|^2 = 2 (|qhat|^2 - 1) |qhat . F|^2)
+  correlation   : vector_fft_corr over T frames and Q wave vectors (docs/vectors.md section 7): spectra = frame average of the per-frame
+                  averaged tables (-> outputfile.spectra.csv); for H in {FFT, T_FFT, L_FFT}: row n of alldata[H] = the q columns of the
+                  first frame's table followed by time_correlation(X_{H,n})["time_corr"][k] for every lag k, X_{H,n}[t, c] = column H<c> of
+                  frame t's table at wave vector n (C14: origin-averaged normalised autocorrelation), rounded to 8 decimals, lag columns
+                  labelled by the callee's time axis, the same values in outputfile.H.npy
 
 N (particles), CN_i (coordination numbers), the number of modes and the number of wave vectors are symbolic; every
 clause about a symbolic axis is proved at an arbitrary symbolic index.  Sums over symbolic ranges are Σ-terms; facts
@@ -33,9 +38,18 @@ from pyvc.vc import Unit
 MOD = "PyMatterSim.static.vector"
 
 NOT_DECIDED = [
-    "vector_fft_corr (per-q time correlation of FFT / T_FFT / L_FFT over frames): not under contract — its pandas layer (DataFrame += DataFrame, "
-    "pd.concat, DataFrame.T, index assignment, integer column labels from np.arange) is outside the pandas model of pyvc, and it calls "
-    "vector_decomposition_sq once per frame; the statement's clauses about the split are decided on vector_decomposition_sq itself",
+    "vector_fft_corr on trajectories whose number of distinct rounded wave numbers |q| differs between frames (cell changing shape between frames, "
+    "e.g. Lx = Ly in one frame only): precondition `the averaged table has the same number G of rows in every frame`.  pandas aligns "
+    "`spectra += ave_sqresults` on the row labels: rows missing in a later frame become NaN, additional rows of a later frame are dropped silently, "
+    "and rows are paired by their rank among the distinct |q| of each frame, not by wave number (observed on the real code, design_notes/C15.md); NaN is "
+    "outside A1, so the case is excluded by the precondition rather than decided",
+    "vector_fft_corr for a (header, wave vector) whose lag-zero autocorrelation sum_t sum_c |X[t,c]|^2 (first frame only for unevenly spaced frames) is 0 "
+    "(e.g. a purely transverse field at that q for L_FFT): time_correlation divides by it (nan in numpy); excluded by the callee's precondition C(0) != 0, "
+    "which vector_fft_corr inherits as a precondition (assumed at the call, not provable from the inputs), and wave vectors with |q| = 0 (the split divides by |q|)",
+    "vector_fft_corr: the composition `columns of the per-frame tables = round8 of the split of the transform` is the callee contract of "
+    "vector_decomposition_sq (proved for its body by its own unit); inside the proof of vector_fft_corr the tables are arbitrary (uninterpreted), so the "
+    "end-to-end formula is obtained by substituting one contract into the other, not by a single obligation; the per-column dtype of pandas frames "
+    "(int64 zeros replaced by float64 columns) is not tracked, only the values",
     "S = S_L + S_T at the level of the rounded columns: conditional_sq rounds q0..q<d-1>, q, Sq and FFT to 8 decimals before the split, so "
     "|qhat| = 1 and Sq = sum|FFT_c|^2 hold only up to 1e-8; proved instead, exactly and for every input: "
     "|L|^2 + |T|^2 - |F|^2 = 2 (|qhat|^2 - 1) |qhat.F|^2 and qhat.T = (1 - |qhat|^2)(qhat.F), i.e. the Pythagorean identity and the "
@@ -62,6 +76,25 @@ TRUSTED = [
     "position, round(8) = uninterpreted round8 per element (componentwise for complex), groupby(key).mean().reset_index() = one row per distinct "
     "key with group means, to_csv = file-write event",
     "ndarray.reshape(n, -1) of a length d*n column with symbolic n: row-major, missing dimension d",
+    "vector_fft_corr: callee contract of time_correlation (C14.Spec: rank-2 complex condition of shape (T, d), the d components play the role of the "
+    "particles; evenly spaced frames ts_j = ts_0 + j h, T >= 2: origin average; otherwise first frame as only origin; t[k] = (ts_k - ts_0) dt), proved "
+    "for the real body by contracts/C14.py (the two cases used are re-verified with this check); it is a function of the shape and the elements of "
+    "`condition`: at the call in the wave-vector loop the argument is proved equal (shape, dtype, every element) to X_{H,n} and the result is taken at X_{H,n}",
+    "vector_fft_corr: callee contract of vector_decomposition_sq as far as needed (tables with the documented columns, Q rows / G rows, default RangeIndex, "
+    "values uninterpreted functions of (frame, row)); preconditions checked at the call: snapshot is frame n of the trajectory, qvector is the caller's, "
+    "vector = vectors[n], no per-frame output file",
+    "vector_fft_corr preconditions (requires): snapshots.nsnapshots = len(snapshots.snapshots) = T >= 1 = vectors.shape[0], every frame has N particles, Q >= 1 "
+    "wave vectors, timesteps evenly spaced with T >= 2 (cases `linear`) or not all differences equal / a single frame (cases `log`), the number G of distinct "
+    "rounded |q| is the same in every frame, the lag-zero autocorrelation of every (header, wave vector) is non-zero",
+    "wide-frame pandas model (pyvc/libext/C15.py, each item checked on pandas 3.0.6): pd.DataFrame(0, columns=np.arange(Q), index=np.arange(T)) = T x Q block of "
+    "zeros with these labels; `frame[n] = float array` replaces column n by exactly these values (no cast to int64; label must be present and the length must be T: "
+    "obligations); `frame.index = labels` (length obligation); `.T`; pd.concat([a, b], axis=1) aligns rows BY LABEL - modelled only for identical indexes, which is "
+    "an obligation at the call (row label i at position i in every input), result = columns side by side with RangeIndex; `.round(8)` = uninterpreted round8 per "
+    "element; `.values` = named columns followed by the block; np.save(path, array) = file-write event; DataFrame arithmetic `0 + df`, `df + df`, `df / n` "
+    "element-wise for frames with the same columns, the same length (obligation) and the default RangeIndex (pandas' in-place `+=` reindexes the result to the left "
+    "frame: the same values under that obligation)",
+    "the written loop invariants of vector_fft_corr are checked by init/step obligations generated from executions of the real loop bodies; the post-state of a loop "
+    "is the state after its last iteration executed from the invariant state (the induction principle over the iteration count is the trusted rule)",
 ]
 
 
@@ -1976,6 +2009,6 @@ def _time_correlation_callee():
 UNITS = UNITS + [_time_correlation_callee()]
 
 MANIFEST = {
-    "text": "Six functions of PyMatterSim/static/vector.py, real ASTs, symbolic particle number N, coordination numbers CN_i, mode number K and wave-vector number Q, d in {2,3}, every clause at an arbitrary symbolic index: participation_ratio = (sum|e|^2)^2/(N sum|e|^4), in [1/N,1] for e != 0 (two Cauchy-Schwarz type facts proved by induction over N), invariant under e -> c e (second symbolic run of the real body); local_vector_alignment_i = mean over the neighbour list of e_i.e_j; phase_quotient = sum e_i.e_j / sum|e_i.e_j| and in [-1,1] (triangle inequality by two nested inductions); divergence_i / curl_i = neighbour averages of D_ij.(u_j-u_i) / D_ij x (u_j-u_i) with D the minimum image of remove_pbc (nested symbolic loops summarised and checked inductively), 2-D returns the divergence only; vibrability_i = sum_l |e_li|^2/omega_l^2 and the saved array is the returned one; vector_decomposition_sq: L_FFT = round8(qhat (qhat.F)), T_FFT = round8(F - L), Sq_L/Sq_T = round8(|L|^2/|T|^2), transform columns kept, L parallel to q, L + T = F, qhat.T = (1-|qhat|^2)(qhat.F), |L|^2+|T|^2-|F|^2 = 2(|qhat|^2-1)|qhat.F|^2 (so S = S_L + S_T whenever |qhat| = 1), averaged frame = group means over equal q, csv = averaged frame; no input array is written. On the unfixed repository vector_decomposition_sq raises for every input (in-place division of the read-only DataFrame.values array, pandas 3): exc-free fails with a failing replay; with design_notes/C15.fix-1.diff every obligation is proved.",
-    "note": "floats as reals (A1); callee contracts of read_neighbors (C05), remove_pbc (C02, proved there), conditional_sq (C13) used at the call sites; induction rule over the upper limit of Σ-terms; assumed np.cross/open/pandas contracts; vector_fft_corr is not under contract (pandas layer outside the model); the Pythagorean identity is exact only for |qhat| = 1, the 8-decimal rounding of the q columns by conditional_sq is not decided",
+    "text": "Seven functions of PyMatterSim/static/vector.py, real ASTs, symbolic particle number N, coordination numbers CN_i, mode number K and wave-vector number Q, d in {2,3}, every clause at an arbitrary symbolic index: participation_ratio = (sum|e|^2)^2/(N sum|e|^4), in [1/N,1] for e != 0 (two Cauchy-Schwarz type facts proved by induction over N), invariant under e -> c e (second symbolic run of the real body); local_vector_alignment_i = mean over the neighbour list of e_i.e_j; phase_quotient = sum e_i.e_j / sum|e_i.e_j| and in [-1,1] (triangle inequality by two nested inductions); divergence_i / curl_i = neighbour averages of D_ij.(u_j-u_i) / D_ij x (u_j-u_i) with D the minimum image of remove_pbc (nested symbolic loops summarised and checked inductively), 2-D returns the divergence only; vibrability_i = sum_l |e_li|^2/omega_l^2 and the saved array is the returned one; vector_decomposition_sq: L_FFT = round8(qhat (qhat.F)), T_FFT = round8(F - L), Sq_L/Sq_T = round8(|L|^2/|T|^2), transform columns kept, L parallel to q, L + T = F, qhat.T = (1-|qhat|^2)(qhat.F), |L|^2+|T|^2-|F|^2 = 2(|qhat|^2-1)|qhat.F|^2 (so S = S_L + S_T whenever |qhat| = 1), averaged frame = group means over equal q, csv = averaged frame; vector_fft_corr (symbolic T frames, N particles, Q wave vectors, d in {2,3}, evenly and unevenly spaced timesteps, every argument of the two callee calls a named call-site obligation): the frame loop keeps the written invariant spectra = sum of the per-frame averaged tables and vectors_fft = the per-frame tables (init/step from executions of the real body), the csv outputfile.spectra.csv holds their frame average; for each header H in {FFT, T_FFT, L_FFT} the wave-vector loop keeps cal_data[:, j] = time_correlation(X_{H,j}).time_corr for j < k (X_{H,j} = the (T, d) complex array of that header's columns of wave vector j over the frames, time_correlation = the C14 contract), and the returned dict has exactly the three keys, each a frame with one row per wave vector: q0..q<d-1>, q of the first frame's table and one column per lag k = round8 of the callee's time_corr[k], lag columns labelled by the callee's time axis (ts_k - ts_0) dt, the same values in outputfile.H.npy; no input array is written. Before the fix commit e113e6a vector_decomposition_sq (and vector_fft_corr through it) raised for every input (in-place division of the read-only DataFrame.values array, pandas 3): exc-free failed with a failing replay; on the repaired tree every obligation is proved.",
+    "note": "floats as reals (A1); callee contracts of read_neighbors (C05), remove_pbc (C02, proved there), conditional_sq (C13) used at the call sites; induction rule over the upper limit of Σ-terms; assumed np.cross/open/pandas contracts incl. the wide-frame model of pyvc/libext/C15.py (concat(axis=1) only for identical indexes, checked as an obligation); vector_fft_corr requires the same number of distinct |q| in every frame and non-zero lag-zero correlations, its per-frame tables are the (uninterpreted) results of vector_decomposition_sq; the Pythagorean identity is exact only for |qhat| = 1, the 8-decimal rounding of the q columns by conditional_sq is not decided",
 }
